@@ -1,6 +1,6 @@
 /-
-  Source-level tie for three fixed-layout scalar decoders of types.go (property C04), translator style (see
-  `ReadsKit`): `decodeInterval`, `decodePoint`, `decodeInet` against the stored forms written by `Spec.Scalars.enc`:
+  Source-level tie for four scalar decoders of types.go (property C04), translator style (see
+  `ReadsKit`): `decodeInterval`, `decodePoint`, `decodeInet`, `decodePathOrPolygon` (header fields; below) against the stored forms written by `Spec.Scalars.enc`:
     * `Interval` (datatype/timestamp.h): time int64 (microseconds), day int32, month int32 → 16 bytes;
     * `Point` (utils/geo_decls.h): x float8, y float8 → 16 bytes;
     * `inet_struct` (utils/inet.h) as stored (the varlena payload): family u8 (2 = IPv4, 3 = IPv6), bits u8,
@@ -150,8 +150,73 @@ theorem decodeInet_reads_are_spec_fields :
 theorem decodeInet_expected_fields_are_read :
     expectedAreRead expectInet Generated.SrcReads.decodeInet = true := by decide
 
+/-! ### path / polygon (fixes/scalars/14) -/
+
+/-- `PATH` (utils/geo_decls.h) after the varlena header: npts int32, closed int32, dummy int32, then the points -/
+def pathLayout : ReadsKit.Layout := [("npts".toList, 4), ("closed".toList, 4), ("dummy".toList, 4)]
+
+/-- `POLYGON` after the varlena header: npts int32, boundbox BOX (32 bytes), then the points -/
+def polygonLayout : ReadsKit.Layout := [("npts".toList, 4), ("boundbox".toList, 32)]
+
+/-- the head of `path_send`'s wire format (geo_ops.c): closed byte, npts int32 — the layout of the fallback branch, written
+here from the PostgreSQL source and NOT backed by a Spec encoder (PostgreSQL never stores it) -/
+def pathSendLayout : ReadsKit.Layout := [("closed".toList, 1), ("npts".toList, 4)]
+
+def pathHead (closed : Bool) (pts : List Pt) : List Bytes := [le 4 pts.length, le 4 (if closed then 1 else 0), le 4 0]
+def polygonHead (bbox : Bytes) (pts : List Pt) : List Bytes := [le 4 pts.length, bbox]
+
+theorem path_eq (closed : Bool) (pts : List Pt) : enc (.path closed pts) = (pathHead closed pts).flatten ++ pts.flatMap encPt := by
+  simp [enc, pathHead]
+
+theorem polygon_eq (bbox : Bytes) (pts : List Pt) : enc (.polygon bbox pts) = (polygonHead bbox pts).flatten ++ pts.flatMap encPt := by
+  simp [enc, polygonHead]
+
+theorem path_fits (closed : Bool) (pts : List Pt) : Fits pathLayout (pathHead closed pts) := by
+  simp [Fits, pathHead, pathLayout, ReadsKit.Layout.widths]
+
+theorem polygon_fits (bbox : Bytes) (pts : List Pt) (h : (Val.polygon bbox pts).WF) : Fits polygonLayout (polygonHead bbox pts) := by
+  have hl : bbox.length = 32 := by
+    simp only [Val.WF, Val.wf, Bool.and_eq_true, beq_iff_eq] at h
+    exact h.1.1.1
+  simp [Fits, polygonHead, polygonLayout, ReadsKit.Layout.widths, hl]
+
+/-- reading the span of a member of `pathLayout` out of a stored path yields that member -/
+theorem path_read (closed : Bool) (pts : List Pt) (name : List Char) (lo hi : Nat) (hs : pathLayout.span name = some (lo, hi)) :
+    ∃ (i : Nat) (q : Bytes), (pathLayout[i]?).map Prod.fst = some name ∧ (pathHead closed pts)[i]? = some q ∧
+      ((enc (.path closed pts)).drop lo).take (hi - lo) = q := by
+  have := read_member pathLayout (pathHead closed pts) (pts.flatMap encPt) (path_fits closed pts) name lo hi hs
+  simpa [path_eq] using this
+
+/-- … and of `polygonLayout` out of a stored polygon -/
+theorem polygon_read (bbox : Bytes) (pts : List Pt) (h : (Val.polygon bbox pts).WF) (name : List Char) (lo hi : Nat)
+    (hs : polygonLayout.span name = some (lo, hi)) :
+    ∃ (i : Nat) (q : Bytes), (polygonLayout[i]?).map Prod.fst = some name ∧ (polygonHead bbox pts)[i]? = some q ∧
+      ((enc (.polygon bbox pts)).drop lo).take (hi - lo) = q := by
+  have := read_member polygonLayout (polygonHead bbox pts) (pts.flatMap encPt) (polygon_fits bbox pts h) name lo hi hs
+  simpa [polygon_eq] using this
+
+/-- `closed` is assigned in two branches: the stored form first, the `path_send` form (fallback) second -/
+def expectPath : Expect :=
+  [fld "n".toList pathLayout "npts".toList, fld "closed".toList pathLayout "closed".toList,
+   fld "closed".toList pathSendLayout "closed".toList, fld "npts".toList pathSendLayout "npts".toList]
+
+/-- **Every constant-bounded read of the current `decodePathOrPolygon` is one whole member: `n` ← npts @0 and `closed` ←
+closed @4 of the stored `PATH` (npts sits at the same span in `POLYGON`: `polygon_npts_same_span`), then — in the fallback
+branch, which no stored value reaches (`Props.C04.C04_path_layouts`) — the closed byte @0 and npts @1 of the `path_send`
+wire format (`pathSendLayout`, not a Spec layout).**  The points are read at variable offsets (`first + i*16`) and do
+not occur in `Generated.SrcReads`. -/
+theorem decodePathOrPolygon_reads_are_spec_fields :
+    readsAreFields expectPath Generated.SrcReads.decodePathOrPolygon = true := by decide
+
+theorem decodePathOrPolygon_expected_fields_are_read :
+    expectedAreRead expectPath Generated.SrcReads.decodePathOrPolygon = true := by decide
+
+theorem polygon_npts_same_span : polygonLayout.span "npts".toList = pathLayout.span "npts".toList := by decide
+
 /-- the hypotheses are satisfiable: 192.168.0.1/24 -/
 example : (Val.inet false false [192, 168, 0, 1] 24).WF ∧ inet4Layout.span "ipaddr[3]".toList = some (5, 6) ∧
-    intervalLayout.span "month".toList = some (12, 16) ∧ pointLayout.span "y".toList = some (8, 16) := by decide
+    intervalLayout.span "month".toList = some (12, 16) ∧ pointLayout.span "y".toList = some (8, 16) ∧
+    pathLayout.span "closed".toList = some (4, 8) ∧ polygonLayout.span "boundbox".toList = some (4, 36) ∧
+    (Val.polygon (zeros 32) [(0, 0)]).WF := by decide
 
 end PgVerif.Proofs.SrcTie.ScalarsReads
